@@ -7,7 +7,7 @@
 set -u
 export GOFLAGS=-mod=mod GOPROXY=off GOSUMDB=off GOTOOLCHAIN=local
 id=$1; seed=$2; demo=$3; dest=$4; pat=$5; pkg=${6:-./$dest/}
-wt=/tmp/vt-$id
+wt=/tmp/vd-$id
 git -C /repo worktree remove --force $wt 2>/dev/null
 git -C /repo worktree add --detach $wt HEAD -q || exit 2
 cd $wt || exit 2
@@ -20,6 +20,6 @@ cp $seed/$demo $dest/ || exit 2
 echo "== demo with the change (expected: FAIL)"
 go test -count=1 -run "$pat" $pkg 2>&1 | tail -5
 echo "== demo without the change (expected: ok)"
-git stash push -q -- $(git diff --name-only | grep -v go.mod | grep -v go.sum)
+git apply -R $seed/patch.diff
 go test -count=1 -run "$pat" $pkg 2>&1 | tail -3
 cd /; git -C /repo worktree remove --force $wt
